@@ -418,6 +418,10 @@ func (e *Engine) verifyFunction(fn *ssa.Function, ct *Contract) *FuncReport {
 			c.addObl(&Obl{Name: fmt.Sprintf("%s/ensures#%d/exit[%s]", fn.String(), en.N, fp), Kind: "ensures",
 				Cond: ex.cond, Goal: g, Clause: en.Text, Exit: fp, Pos: e.posString(ex.ret.Pos()), Props: en.Props})
 		}
+		if len(ct.Ensures) > 0 {
+			// vacuity guard per exit: an unreachable exit satisfies every postcondition trivially
+			c.addObl(&Obl{Name: fmt.Sprintf("%s/cover/exit[%s]", fn.String(), fp), Kind: "cover-exit", Cond: ex.cond, Goal: sTrue, ExpectSat: true, Exit: fp})
+		}
 	}
 	if ct.HasMod && len(f.exits) > 0 {
 		e.frameObligations(c, fn, ct, f, alloc0)
